@@ -261,7 +261,8 @@ def classify_region(desc):
 
 # ------------------------------------------------------------------ running
 
-STRATS = {"IterateSATGen": sp.IterateSATGen, "RandomGen": sp.RandomGen, "CMSGen": sp.CMSGen, "UniGen": sp.UniGen}
+STRATS = {"IterateSATGen": sp.IterateSATGen, "RandomGen": sp.RandomGen, "CMSGen": sp.CMSGen, "UniGen": sp.UniGen,
+          "SMGen": sp.SMGen}
 
 
 class CallTimeout(BaseException):
